@@ -301,6 +301,9 @@ func (r *Run) afterAuthorize(st Step, cs *ClientSpec, res *Resp, q url.Values, c
 	g := r.L.NewGrant(&Grant{Client: cs.ID, Origin: origin, Subject: con.Subject, Scopes: granted, Audience: grantedAud,
 		Nonce: q.Get("nonce"), State: q.Get("state"), Redirect: q.Get("redirect_uri"), Challenge: challenge, Method: method, OpenID: has(granted, "openid"),
 		ReqAt: now, Params: map[string]string{"response_type": rtype, "verifier": verifier, "max_age": q.Get("max_age"), "prompt": q.Get("prompt")}})
+	if has(cs.GrantTypes, "refresh_token") {
+		g.Params["had_refresh_grant_at_authorization"] = "1"
+	}
 	if con.PresetIDExp > 0 {
 		g.PresetIDExp = now.Add(time.Duration(con.PresetIDExp) * time.Second)
 	}
@@ -852,7 +855,7 @@ func (r *Run) judgeRefresh(st Step, rt *Cred, cs *ClientSpec, res *Resp, mutated
 		r.probe("refresh-foreign-client")
 	}
 	if !r.registrationCovers(cs, g) {
-		mustRefuse = append(mustRefuse, "C05")
+		mustRefuse = append(mustRefuse, "C05", "C12")
 		r.probe("refresh-registration-narrowed")
 	}
 	if len(mustRefuse) > 0 {
